@@ -406,11 +406,23 @@ class Interp:
         if isinstance(a, ClassVal) or isinstance(b, ClassVal):
             return isinstance(a, ClassVal) and isinstance(b, ClassVal) and a.info is b.info
         if isinstance(a, Obj) or isinstance(b, Obj):
+            for o, other in ((a, b), (b, a)):
+                if not isinstance(o, Obj):
+                    continue
+                withs = [k for k in sorted(o.kinds) if self.classes[k].lookup("__eq__")]
+                if not withs:
+                    continue
+                # a class of the code under check defines equality: run it (for the kinds that have it)
+                if len(withs) < len(o.kinds):
+                    if self.ps.choose(2, "defines-__eq__") == 0:
+                        self.refine_kinds(o, [k for k in o.kinds if k not in withs])
+                        continue
+                    self.refine_kinds(o, withs)
+                r = self.call_method(o, "__eq__", [other], {})
+                if r is NotImplemented:
+                    continue
+                return r
             if isinstance(a, Obj) and isinstance(b, Obj):
-                for o in (a, b):
-                    for k in o.kinds:
-                        if self.classes[k].lookup("__eq__"):
-                            raise OutOfSubset(f"{k} defines __eq__")
                 return a is b
             return False
         if a is NAN or b is NAN:
